@@ -133,6 +133,8 @@ def check_loader(ns, n, bs, mode):
             dl = ns.data.DataLoader(X, y2, bs)
         elif mode == "none":
             dl = ns.data.DataLoader(X, y, bs)
+        elif (n + bs) % 2:
+            dl = ns.data.DataLoader(X, y, bs, tag)               # the transform as the fourth positional argument (its documented position)
         else:
             dl = ns.data.DataLoader(X, y, bs, transform=tag)
         want_n = n // bs
